@@ -150,3 +150,25 @@ Fixpoint spec_run (c : wcells) (h : list acc) : wcells * list obs :=
   | [] => (c, [])
   | a :: rest => let '(c1, o) := spec_step c a in let '(c2, os) := spec_run c1 rest in (c2, o :: os)
   end.
+
+(** ** register release at wavefront end (timing model only): the released
+    wavefront's [ns] scalar and [nv] vector registers (all 64 lanes) read zero
+    afterwards; its special registers and every other wavefront keep their contents *)
+Definition reset_cells (ns nv : N) (c : cells) : cells := fun id =>
+  match id with
+  | CS j => if j <? ns then 0 else c id
+  | CV l j => if (l <? 64) && (j <? nv) then 0 else c id
+  | _ => c id
+  end.
+
+Definition tspec_step (ns nv : N -> N) (c : wcells) (a : acc) : wcells * obs :=
+  match a_api a with
+  | AReset => (wupd c (a_w a) (reset_cells (ns (a_w a)) (nv (a_w a)) (c (a_w a))), ODone)
+  | _ => spec_step c a
+  end.
+
+Fixpoint tspec_run (ns nv : N -> N) (c : wcells) (h : list acc) : wcells * list obs :=
+  match h with
+  | [] => (c, [])
+  | a :: rest => let '(c1, o) := tspec_step ns nv c a in let '(c2, os) := tspec_run ns nv c1 rest in (c2, o :: os)
+  end.
